@@ -46,7 +46,8 @@ RULE = (
     "GaussianMLP, the four policy heads, ContinuousClippedDoubleQNet, SALE / ActorSALE / DeterministicSALEPolicy "
     "/ CriticSALE, ModelBasedEncoder, DeterministicPolicyWithEncoder, GaussianMLPEnsemble, MTMLPQNetwork, "
     "ModelBasedMTEncoder); per item sizes, seeds, parameter scale and special values (signed zero, subnormal, "
-    "float32 max), logger kind, interval and number of checkpoints are drawn; an item is non-trivial if the "
+    "float32 max), logger kind, interval, number of checkpoints and whether the same logger then serves a second "
+    "run whose step counter starts again are drawn; an item is non-trivial if the "
     "module is restored into a template whose every variable differs from the saved bytes, or the live module "
     "was changed after the save; a case is non-trivial if at least half of its items are. Evaluations count "
     "cases, i.e. 17 module round trips each. Distinct = distinct canonical case."
@@ -693,6 +694,8 @@ def checkpoint_cases(draw):
         item["define_experiment"] = draw(st.booleans())
         item["in_list"] = draw(st.booleans())
         item["key"] = draw(st.sampled_from(["q", "policy", "dynamics_model", "policy_with_encoder"]))
+        # a second training call with the same logger: its step counter starts again at 1 (same key)
+        item["second_run"] = draw(st.sampled_from([True, False]))
         items.append(item)
     return {"items": items}
 
@@ -730,11 +733,28 @@ def _run_checkpoint_item(case):
             snaps.append(state_bytes(m))
             outs.append(P.module_outputs(m, spec, case["input_seed"], case["batch"]))
             check(state_bytes(m) == snaps[-1], "checkpoint.save.changes_original", "")
+        n1 = len(writer.checkpoint_path[key])
+        check(n1 == case["n_saves"], f"checkpoint.{case['logger']}.count",
+              f"{n1} checkpoints listed after {case['n_saves']} interval crossings (interval {interval})")
+        if case.get("second_run"):
+            # the same logger serves a second training call: steps are counted from 1 again.  Which of its
+            # records write a checkpoint is the cadence rule (C20); here every path that gets listed is
+            # remembered together with the module as it was at that record
+            for k2 in range(1, interval * case["n_saves"] + 2):
+                P.set_state(m, case["state_seed"] + 500 + k2, case["scale"], [])
+                before = len(writer.checkpoint_path[key])
+                if case["logger"] == "orbax":
+                    logger.record_epoch(key, m, step=k2)
+                else:
+                    logger.record_epoch(key, m)
+                if len(writer.checkpoint_path[key]) > before:
+                    snaps.append(state_bytes(m))
+                    outs.append(P.module_outputs(m, spec, case["input_seed"], case["batch"]))
         # the live module moves on after the last save
         P.set_state(m, case["state_seed"] + 1000, 1.0, [])
         paths = list(writer.checkpoint_path[key])
-        check(len(paths) == case["n_saves"], f"checkpoint.{case['logger']}.count",
-              f"{len(paths)} checkpoints listed after {case['n_saves']} interval crossings (interval {interval})")
+        check(len(paths) == len(snaps), f"checkpoint.{case['logger']}.listed_once_per_save",
+              f"{len(paths)} paths listed for {len(snaps)} records that added a path")
         nt = True
         for i, (path, saved, out) in enumerate(zip(paths, snaps, outs)):
             check(os.path.isdir(path), f"checkpoint.{case['logger']}.path_exists", path)
@@ -752,6 +772,7 @@ def _run_checkpoint_item(case):
                     continue
                 _check_restored(tag, r, type(m), saved, out, case)
     labels = ["arch:" + spec["arch"], "logger:" + case["logger"], "saves:%d" % case["n_saves"],
+              "second-run:%d-more-checkpoints" % (len(paths) - n1) if case.get("second_run") else "single-run",
               "interval:%d" % interval, "in-list" if case["in_list"] else "direct", "reader:" + case["reader"]]
     return labels, nt
 
@@ -788,7 +809,7 @@ def simplify_module(case):
         yield variant(reader="restore_checkpoint")
         yield variant(reader="orbax_restore")
     for k, v in (("n_saves", 1), ("interval", 1), ("in_list", False), ("define_experiment", False),
-                 ("change_after_save", False), ("save_move", None), ("load_move", None), ("batch", 3)):
+                 ("change_after_save", False), ("second_run", False), ("save_move", None), ("load_move", None), ("batch", 3)):
         if k in item and item[k] != v:
             yield variant(**{k: v})
     if item["spec"]["flag"]:
